@@ -6,9 +6,9 @@ spec = {
   "clock": "real" | "warp",        # warp: time.* shifted +10 years and running 1000x faster
   "prior": "none" | "busy",        # busy: three unrelated simulations + ~10k events first,
                                    #       and the catalogue is walked in reverse order
-                                   # none: first every model in a forked child of the pristine
-                                   #       interpreter (rows labelled prior="fresh"), then the
-                                   #       catalogue in order in this process (prior="none")
+                                   # none: the catalogue in order in this process
+  "fresh": null | {"seeds": [...], "par": 4},  # before anything else: every model in a forked child
+                                   # of the still pristine interpreter (rows labelled prior="fresh")
   "seeds": [1, 2, 7],
   "models": null | [names],        # null = whole catalogue
   "reps": 1 | 2,                   # run every (model, seed) this many times back to back
@@ -194,23 +194,28 @@ def run_pass(names, seeds, reps, dump, prior_label):
     return False
 
 
-def fresh_pass(names, seeds, reps, dump):
+def fresh_pass(names, seeds, reps, dump, par=4):
     """Prior activity "nothing": each model runs in a forked child of this still pristine
-    interpreter (library imported, nothing built or run yet) — the state a fresh process has."""
-    for name in names:
-        if dump and (dump[0] != name or dump[2] != "fresh"):
-            continue
-        sys.stdout.flush()
-        pid = os.fork()
-        if pid == 0:
-            code = 0
-            try:
-                run_pass([name], seeds, reps, dump, "fresh")
-                sys.stdout.flush()
-            except BaseException:  # pragma: no cover
-                code = 3
-            os._exit(code)
-        os.waitpid(pid, 0)
+    interpreter (library imported, nothing built or run yet) — the state a fresh process has.
+    Up to ``par`` children at a time; each row is written with one write() (< PIPE_BUF)."""
+    todo = [n for n in names if not dump or (dump[0] == n and dump[2] == "fresh")]
+    live = {}
+    while todo or live:
+        while todo and len(live) < (1 if dump else par):
+            name = todo.pop(0)
+            sys.stdout.flush()
+            pid = os.fork()
+            if pid == 0:
+                code = 0
+                try:
+                    run_pass([name], seeds, reps, dump, "fresh")
+                    sys.stdout.flush()
+                except BaseException:  # pragma: no cover
+                    code = 3
+                os._exit(code)
+            live[pid] = name
+        pid, _st = os.wait()
+        live.pop(pid, None)
 
 
 def main():
@@ -223,8 +228,9 @@ def main():
         prior_activity()
         run_pass(list(reversed(names)), list(reversed(seeds)), reps, dump, "busy")
         return
-    if SPEC.get("fresh", True) and not (dump and dump[2] != "fresh"):  # dump of a later pass: skip this one
-        fresh_pass(names, seeds, reps, dump)
+    fresh = SPEC.get("fresh")
+    if fresh and not (dump and dump[2] != "fresh"):  # dump of a later pass: skip this one
+        fresh_pass(names, fresh.get("seeds") or seeds, reps, dump, par=int(fresh.get("par", 4)))
         if dump:
             return
     # prior activity of model k = the catalogue models before it (and every earlier seed pass)
